@@ -110,7 +110,8 @@ M("C13", "quotient-one-bit-short", (QF, "        let quotient = fingerprint_clea
 B("C13", "chain-reorder-independent-reads", (QF, "            let next_is_continuation = self.is_continuation[position];\n            let next_remainder = self.remainders.get(position as u64);", "            let next_remainder = self.remainders.get(position as u64);\n            let next_is_continuation = self.is_continuation[position];"))
 M("C13", "scan-sorted-break-wrong-direction", (QF, "                if r > remainder {\n                    // remainders are sorted within run\n                    break;", "                if r < remainder {\n                    // remainders are sorted within run\n                    break;"), "R13-scan", "scan")
 M("C13", "scan-skip-run-on-shifted", (QF, "                self.incr(&mut s);\n                if !self.is_continuation[s] {\n                    break;\n                }\n            }\n\n            // find the next occupied bucket", "                self.incr(&mut s);\n                if !self.is_shifted[s] {\n                    break;\n                }\n            }\n\n            // find the next occupied bucket"), "R13-scan", "scan")
-M("C13", "scan-cluster-start-walks-right", (QF, "        while self.is_shifted[b] {\n            self.decr(&mut b);", "        while self.is_shifted[b] {\n            self.incr(&mut b);"), "R13-scan", "scan")
+M("C13", "scan-cluster-start-stops-on-occupied", (QF, "        while self.is_shifted[b] {\n            self.decr(&mut b);", "        while self.is_shifted[b] && !self.is_occupied[b] {\n            self.decr(&mut b);"), "R13-scan", "scan")
+M("C13", "chain-start-continuation-only-at-canonical", (QF, "            self.is_continuation[scan_result.position] || scan_result.at_start_of_run();", "            self.is_continuation[scan_result.position]\n                || (scan_result.has_run() && scan_result.position == quotient);"), "R13-swap-chain", "insert_internal")
 M("C13", "scan-fast-path-also-on-insert", (QF, "        if (!run_exists) && (!on_insert) {", "        if !run_exists {"), "R13-scan-results", "fast-path")
 M("C13", "scan-present-reports-run-start", (QF, "                    return ScanResult {\n                        present: true,\n                        position: s,", "                    return ScanResult {\n                        present: true,\n                        position: start_of_run,"), "R13-scan-results", "scan")
 B("C13", "scan-sorted-break-ge", (QF, "                if r > remainder {\n                    // remainders are sorted within run\n                    break;", "                if r >= remainder {\n                    // remainders are sorted within run\n                    break;"))
@@ -234,6 +235,30 @@ M("C16", "insert-sum-without-weight", (TD, "            sum: x * w,", "         
 M("C16", "zero-weight-not-skipped", (TD, "        if w == 0. {\n            return;\n        }\n", ""), "R16-insert", "TDigest::insert_weighted")
 M("C16", "min-folded-with-max", (TD, "        self.min = self.min.min(x);", "        self.min = self.min.max(x);"), "R16-insert", "insert_weighted")
 B("C16", "fuse-commuted", (TD, "            count: self.count + other.count,\n            sum: self.sum + other.sum,", "            count: other.count + self.count,\n            sum: other.sum + self.sum,"))
+
+# ======================================================================================= more behaviour-preserving edits
+B("C15", "interior-span-div-two", (TD, "                let delta = 0.5 * (c_last.count + c.count);", "                let delta = (c_last.count + c.count) / 2.;"))
+B("C15", "left-tail-hoist-half", (TD, "            let t = limit / (0.5 * c_first.count);", "            let half = c_first.count * 0.5;\n            let t = limit / half;"))
+B("C15", "cdf-hoist-mean", (TD, "            if x < c.mean() {\n                let delta = c.mean() - last_mean;", "            let m = c.mean();\n            if x < m {\n                let delta = m - last_mean;"))
+B("C09", "prune-with-retain", (LC, "            self.known = self\n                .known\n                .drain()\n                .filter(|(_k, v)| v.f + v.delta > b_current)\n                .collect();", "            self.known.retain(|_k, v| v.f + v.delta > b_current);"))
+B("C12", "cuckoo-insert-if-let-err", (CF, "        if result.is_err() {\n            self.restore_state(&log);\n        }\n        result", "        if let Err(e) = result {\n            self.restore_state(&log);\n            return Err(e);\n        }\n        result"))
+B("C20", "deserialize-validate-through-helper", [(SER, "                if !(4..=18).contains(&b) {", "                if !valid_b(b) {"), (SER, "        const FIELDS: &[&str] = &[\"registers\", \"b\", \"buildhasher\"];", "        fn valid_b(b: usize) -> bool {\n            (4..=18).contains(&b)\n        }\n        const FIELDS: &[&str] = &[\"registers\", \"b\", \"buildhasher\"];")])
+B("C17", "index-by-rem", (HLL, "        let j = hashed_value - (w << self.b);", "        let j = hashed_value % (1u64 << self.b);"))
+B("C14", "delete-or-combination", (CF, "        if self.remove_from_bucket(i1, f) {\n            self.n_elements -= 1;\n            return true;\n        }\n        if self.remove_from_bucket(i2, f) {\n            self.n_elements -= 1;\n            return true;\n        }\n        false", "        if self.remove_from_bucket(i1, f) || self.remove_from_bucket(i2, f) {\n            self.n_elements -= 1;\n            return true;\n        }\n        false"))
+B("C18", "fill-guard-on-len", (RS, "        if self.i < self.k {\n            // initial fill-up", "        if self.reservoir.len() < self.k {\n            // initial fill-up"))
+B("C05", "gap-in-helper-method", [(RS, "            // calculate next skip\n            let p = (self.k as f64) / ((self.i + 1) as f64);\n            let u = 1f64 - self.rng.gen_range((0.)..1.); // (0.0, 1.0]\n            let g = (u.ln() / (1. - p).ln()).floor() as usize;\n            self.skip_until = self.i + g;", "            // calculate next skip\n            let g = self.draw_gap();\n            self.skip_until = self.i + g;"),
+                                    (RS, "    /// Checks if reservoir is empty (i.e. no data points where observed)", "    fn draw_gap(&mut self) -> usize {\n        let p = (self.k as f64) / ((self.i + 1) as f64);\n        let u = 1f64 - self.rng.gen_range((0.)..1.); // (0.0, 1.0]\n        (u.ln() / (1. - p).ln()).floor() as usize\n    }\n\n    /// Checks if reservoir is empty (i.e. no data points where observed)")])
+B("C10", "vacant-branch-let-else", (CH, "                    let min: TreeEntry<T> = (*self.tree.iter().next().unwrap()).clone();", "                    let first = self.tree.iter().next().unwrap();\n                    let min: TreeEntry<T> = first.clone();"))
+B("C16", "merge-while-let", (TD, "        for next in x.drain(1..) {", "        let mut rest = x.drain(1..);\n        while let Some(next) = rest.next() {"))
+B("C02", "add-n-match-seed", (CMS, "            result = if i == 0 {\n                current.clone()\n            } else {\n                result.min(current.clone())\n            };", "            result = match i {\n                0 => current.clone(),\n                _ => result.min(current.clone()),\n            };"))
+B("C06", "bloom-union-bitor-assign-form", (BF, "        self.bs = &self.bs | &other.bs;", "        let merged = &self.bs | &other.bs;\n        self.bs = merged;"))
+B("C13", "incr-via-match", (QF, "        *pos = if *pos == self.is_occupied.len() - 1 {\n            0\n        } else {\n            *pos + 1\n        }", "        let last = self.is_occupied.len() - 1;\n        if *pos == last {\n            *pos = 0;\n        } else {\n            *pos += 1;\n        }"))
+B("C19", "tdigest-clear-reassign-vectors", (TD, "        self.centroids.clear();\n        self.n_samples = 0;", "        self.centroids = vec![];\n        self.n_samples = 0;"))
+B("C11", "quotient-len-shift-hoisted", (QF, "        let len = 1 << bits_quotient;", "        let one: usize = 1;\n        let len = one << bits_quotient;"))
+B("C07", "cuckoo-sizing-reordered", (CF, "        let costs = (l_fingerprint as f64) / load_factor;\n        let n_buckets = ((costs * (expected_elements as f64) / (l_fingerprint as f64)).ceil()", "        let bits = l_fingerprint as f64;\n        let costs = bits / load_factor;\n        let n_buckets = (((expected_elements as f64) * costs / bits).ceil()"))
+B("C08", "e-over-eps-let", (CMS, "        let w = (f64::consts::E / epsilon).ceil() as usize;", "        let cols = f64::consts::E / epsilon;\n        let w = cols.ceil() as usize;"))
+B("C01", "bloom-query-all", (BF, "        for pos in self.builder.iter_for(obj) {\n            if !self.bs[pos] {\n                return false;\n            }\n        }\n        true", "        let mut it = self.builder.iter_for(obj);\n        while let Some(pos) = it.next() {\n            if !self.bs[pos] {\n                return false;\n            }\n        }\n        true"))
+B("C03", "estimate-bias-let-offset", (HLL, "        let lookup_array = RAW_ESTIMATE_DATA_VEC[self.b - RAW_ESTIMATE_DATA_OFFSET];", "        let row = self.b - RAW_ESTIMATE_DATA_OFFSET;\n        let lookup_array = RAW_ESTIMATE_DATA_VEC[row];"))
 
 
 def main():
